@@ -87,6 +87,7 @@ type Txn struct {
 	columns []columnCache    // The column mapping
 	logger  commit.Logger    // The optional commit logger
 	inserts []uint32         // The offsets reserved by inserts of this transaction
+	replay  bool             // Whether the transaction replays a commit of a single chunk
 	reader  *commit.Reader   // The commit reader to re-use
 }
 
@@ -106,6 +107,7 @@ func (txn *Txn) reset() {
 	txn.columns = txn.columns[:0]
 	txn.updates = txn.updates[:0]
 	txn.inserts = txn.inserts[:0]
+	txn.replay = false
 }
 
 // bufferFor loads or creates a buffer for a given column.
@@ -528,8 +530,12 @@ func (txn *Txn) rollback() {
 func (txn *Txn) commit() {
 	defer txn.reset()
 
-	// Mark the dirty chunks from the updates
+	// Mark the dirty chunks from the updates; a replayed commit only concerns its own chunk,
+	// even when its (cloned) buffers still carry the operations of the transaction's other chunks
 	for _, u := range txn.updates {
+		if txn.replay {
+			break
+		}
 		u.RangeChunks(func(chunk commit.Chunk) {
 			txn.dirty.Set(uint32(chunk))
 		})
